@@ -157,7 +157,13 @@ class World:
         rid = str(self.counter)
         if kind != 'plain':
             h = {'Accept': 'application/json'} if kind == 'badj' else {}
-            if kind == 'big':
+            if kind == 'chunk':
+                # a well-formed chunked body of the application's own letter, in two chunks of app-specific sizes
+                a, b = {'A': (3, 2), 'B': (1, 6), 'D': (2, 2)}[name]
+                ch = name.lower().encode()
+                raw = b'%x\r\n%s\r\n%x;ext=1\r\n%s\r\n0\r\n\r\n' % (a, ch * a, b, ch * b)
+                env = wsgi.environ('POST', f'/b/{rid}', qs='who=' + name, body=raw, chunked=True, headers=h)
+            elif kind == 'big':
                 env = wsgi.environ('POST', f'/b/{rid}', qs='who=' + name * (1 + self.counter % 3), body=b'0123456789abcdef', headers=h)
             else:
                 env = wsgi.environ('POST', f'/b/{rid}', qs='who=' + name * (1 + self.counter % 3), body=b'zz\r\n', chunked=True, headers=h)
@@ -266,7 +272,8 @@ def src_prefix():
 def run_threads(pair, prefix):
     w = World()
     names = list(pair)
-    progs = [(lambda n=n: w.request(n, ('redir', None) if n == 'D' else (('mutq', None) if n == 'B' else None))) for n in names]
+    progs = [(lambda n=n: w.request(n[0], None, 'chunk') if n.endswith(':c') else
+              w.request(n, ('redir', None) if n == 'D' else (('mutq', None) if n == 'B' else None))) for n in names]
     sp = src_prefix()
     x = Scheduler(progs, prefix, lambda fn: fn.startswith(sp) or fn == HERE).run()
     x.results['world'] = w
@@ -284,6 +291,11 @@ def judge_threads(pair, x):
         return v
     for t, name in enumerate(pair):
         rid, resp = x.results[t]
+        if name.endswith(':c'):
+            exp = lone_response(name[0], 'chunk', rid)
+            if resp != exp or not resp[0].startswith('200') or resp[2] != name[0].lower().encode() * len(resp[2]):
+                return 'response', f'application {name[0]}, chunked request {rid} answered {resp!r}; alone it answers {exp!r}'
+            continue
         exp = expected_response(name, rid)
         if name == 'D':
             exp = ('303 See Other', (('X-App', name + rid), ('Location', f'http://{name.lower()}.test/next/{rid}'), ('Content-Length', '0'),
@@ -307,7 +319,8 @@ def shards(tier, seed):
         for j in range(len(ms)):
             out.append(('hist', (i, j), depth if tier == 'quick' else 4, 'small'))
     bound = 1 if tier == 'quick' else 2
-    for pair in (('A', 'B'), ('A', 'D'), ('B', 'D'), ('A', 'A')):
+    for pair in (('A', 'B'), ('A', 'D'), ('B', 'D'), ('A', 'A'), ('A:c', 'B:c'), ('A:c', 'D')) + \
+            ((('A:c', 'A:c'), ('D:c', 'B:c'), ('B:c', 'A')) if tier == 'thorough' else ()):
         for start in (0, 1):
             npts = len(run_threads(pair, (start,)).points)
             k = 4 if tier == 'quick' else 24
@@ -321,7 +334,7 @@ def shards(tier, seed):
 
 def bounds(tier, seed):
     return {'applications': APPS, 'menu': len(menu()), 'history_depth': '2 over the full menu, 3 over the 14-operation error/creation menu' if tier == 'quick' else '3 over the full menu, 4 over the error/creation menu',
-            'thread_pairs': ['A+B', 'A+D', 'B+D', 'A+A'], 'preemption_bound': 1 if tier == 'quick' else 2}
+            'thread_pairs': ['A+B', 'A+D', 'B+D', 'A+A', 'A:chunked+B:chunked', 'A:chunked+D'] + (['A:chunked+A:chunked', 'D:chunked+B:chunked', 'B:chunked+A'] if tier == 'thorough' else []), 'preemption_bound': 1 if tier == 'quick' else 2}
 
 
 FLOORS = {'histories': 3000, 'nested_ops': 2000, 'schedules': 1000}
